@@ -550,6 +550,39 @@ def edited_arguments_followed(chk):
     core.reset_world()
 
 
+def results_passed_back_in(chk):
+    """Quantities the library handed out (the angle a zeroing returned, a weapon's stored zero) or that the caller still holds are
+    passed back in - as the zero elevation of a SECOND weapon - and that weapon is zeroed for another distance: zeroing changes the
+    zeroed weapon's stored zero and nothing else - not the first weapon's zero, not the magnitude of any quantity object."""
+    m = impl.pb()
+    U = m.Unit
+    core.reset_world()
+    dm = lambda: m.DragModel(0.3, m.TableG7, U.Grain(168), U.Inch(0.308), U.Inch(1.2))
+    fire = lambda c, sh: tuple(scen.row_fp(r) for r in c.fire(sh, U.Foot(900), U.Foot(300)).trajectory)
+    for how in ("returned-angle", "first-weapons-zero", "callers-own-angle"):
+        calc = m.Calculator(_config={"max_calc_step_size_feet": 2.0})
+        rifle1 = m.Weapon(U.Inch(2), U.Inch(10))
+        shot1 = m.Shot(rifle1, m.Ammo(dm(), U.FPS(2700)))
+        z = calc.set_weapon_zero(shot1, U.Yard(100))
+        held = {"returned-angle": z, "first-weapons-zero": rifle1.zero_elevation, "callers-own-angle": U.Mil(1.25)}[how]
+        held_raw = float(held.raw_value).hex()
+        zero1 = float(rifle1.zero_elevation.raw_value).hex()
+        before = fire(calc, shot1)
+        rifle2 = m.Weapon(U.Inch(3), U.Inch(10), held)
+        shot2 = m.Shot(rifle2, m.Ammo(dm(), U.FPS(2700)))
+        impl.outcome(calc.set_weapon_zero, shot2, U.Yard(300))
+        chk.count(1, ("passed-back", how))
+        chk.stratum("quantities_handed_out_passed_back_in")
+        k = {"source": "passed-back", "how": how}
+        if float(held.raw_value).hex() != held_raw:
+            chk.violation("C10.QuantityMagnitudeChanged", k, {"was": held_raw, "now": float(held.raw_value).hex()})
+        if float(rifle1.zero_elevation.raw_value).hex() != zero1:
+            chk.violation("C10.StoredZeroChanged", {**k, "weapon": "the first rifle (not zeroed)"}, {"was": zero1, "now": float(rifle1.zero_elevation.raw_value).hex()})
+        if fire(calc, shot1) != before:
+            chk.violation("C10.ResultDependsOnHistory", {**k, "op": "Fire", "after": "zeroing another weapon"}, {})
+    core.reset_world()
+
+
 def tables_in_callers_order(chk):
     """The non-mutation clause over the tables a caller may hand in: a drag table is the caller's LIST - in descending Mach
     order, rotated, shuffled - and every computation (fire, zeroing, elevation for a target, danger space) leaves it the same
@@ -611,6 +644,7 @@ def run(chk: core.Check, replay=None) -> None:
     default_objects_isolated(chk)
     tables_in_callers_order(chk)
     edited_arguments_followed(chk)
+    results_passed_back_in(chk)
     d = dict(GRAPH, DirtRule='"ignored"', MaxOps=4 if thorough else 3)
     body = ("SPECIFICATION Spec\nINVARIANT C10_HistoryIndependent\nPROPERTY C10_ZeroResultIndependent\nPROPERTY C10_OnlyZeroWritesZero\n"
             "INVARIANT C10_NothingElseMutates\nPROPERTY C10_FailedZeroKeepsZero\n")
@@ -690,7 +724,7 @@ def run(chk: core.Check, replay=None) -> None:
     chk.sample({"history": behs[0]})
     threads_part(chk, thorough, rng)
     chk.require_strata(["op_Fire", "op_FireRaises", "op_Zero", "op_ZeroRaises", "op_Danger", "op_Build", "op_EditTable", "op_FireBadTable",
-                        "default_objects_edited", "shot_fields_edited_in_place_between_fires", "atmosphere_humidity_set_between_short_fires", "earlier_results_rechecked", "table_edited_in_place", "edit_kind_table", "edit_kind_powder", "edit_kind_dims", "edit_between_computations_on_one_calculator", "unservable_zero_request_then_computation_on_one_calculator", "quantities_redisplayed_and_preferences_switched", "zero_written", "schedule", "schedule_equal_configurations", "schedule_different_configurations",
+                        "default_objects_edited", "shot_fields_edited_in_place_between_fires", "quantities_handed_out_passed_back_in", "atmosphere_humidity_set_between_short_fires", "earlier_results_rechecked", "table_edited_in_place", "edit_kind_table", "edit_kind_powder", "edit_kind_dims", "edit_between_computations_on_one_calculator", "unservable_zero_request_then_computation_on_one_calculator", "quantities_redisplayed_and_preferences_switched", "zero_written", "schedule", "schedule_equal_configurations", "schedule_different_configurations",
                         "free_running"])
     chk.exhaustive = False
     chk.rule.append("TLC-simulated session histories of 6 operations over 3 shots (shared weapon / shared ammunition, with and without "
